@@ -64,11 +64,10 @@ Section Check.
   Definition check_pos (ds : list Z) (w : bool) : bool :=
     let p := pos_of ds w in
     if legalb cls p then
-      let cs := moves cls p in             (* = expected (moves cls) (in_check cls) lab p, moves computed once *)
-      tlabel_eqb (T ds w) (TL (expected_of (in_check cls p) (map lab cs))) &&
-      forallb (wfb cls) cs                 (* successors are positions again; that the mover is not
-                                              left in check holds by definition of [moves]
-                                              (CheckerProofs.moves_mover_safe) *)
+      let cs := moves cls p in             (* = expected (moves cls) (in_check cls) lab p; that the
+                                              successors are legal positions again is a theorem
+                                              (MiniChessFacts.moves_preserve_legal), not checked here *)
+      tlabel_eqb (T ds w) (TL (expected_of (in_check cls p) (map lab cs)))
     else if wfb cls p then tlabel_eqb (T ds w) TNotFound
     else tlabel_eqb (T ds w) TUnrep.
 
